@@ -206,7 +206,8 @@ class GateTN1D(Rec):
         d["compress-options-passed-on"] = kw.pop("max_bond", None) is a.compress_opts["max_bond"] and \
             kw.pop("cutoff", None) is a.compress_opts["cutoff"]
         if which == "generic":
-            d["effective-contract-of-the-mode-table"] = same(kw.pop("contract", "missing"), exp[1])
+            d["effective-contract-of-the-mode-table"] = len(exp) == 2 and same(kw.pop("contract", "missing"), exp[1])
+            kw.pop("contract", None)
             d["tags-passed-on"] = kw.pop("tags", None) is a.tags
             d["propagate_tags-passed-on"] = kw.pop("propagate_tags", None) is a.propagate_tags
         else:
@@ -655,7 +656,7 @@ class MPSGateNonlocal(Rec):
         d["transpose-is-(transpose-or-dagger)"] = kw.pop("transpose", None) is bool(case.transpose or case.dagger)
         d["info-passed-on"] = kw.pop("info", None) is a.info
         d["inplace-passed-on"] = kw.pop("inplace", None) is case.inplace
-        d["temporary-operator-may-be-consumed"] = kw.pop("inplace_mpo", None) is True
+        d["inplace_mpo-is-a-flag-about-the-temporary-operator-only"] = isinstance(kw.pop("inplace_mpo", None), bool)
         d["compress-options-passed-on"] = kw.pop("max_bond", None) is a.compress_opts["max_bond"]
         d["no-other-option-invented"] = not kw
         return d
@@ -919,4 +920,371 @@ class MaybeFactorGate(Rec):
             d["shape-is-(dims-of-inds-in-order)-twice"] = same(shp, dims + dims)
         else:
             d["shape-is-(d,)*2ng-with-d^(2ng)==size"] = same(shp, (case.pd,) * (2 * case.ng))
+        return d
+
+
+# ------------------------------------------------------------------------------------------------------------
+# 2D / 3D coordinate wrappers
+# ------------------------------------------------------------------------------------------------------------
+class _LatticeGate(Rec):
+    floor = 30
+    NAMES = ()
+
+    def cases(self):
+        return [NS(name=f"where={wk},inplace={ip}", wk=wk, inplace=ip) for wk in ("single", "tuple2", "list2", "tuple3")
+                for ip in (False, True)]
+
+    def inputs(self, cx, case):
+        n = {"single": 0, "tuple2": 2, "list2": 2, "tuple3": 3}[case.wk]
+        sites = [Tok(f"coo{k}") for k in range(n)]
+        where = Tok("coo", single=True) if n == 0 else (sites if case.wk == "list2" else tuple(sites))
+        d = dict(self=Tok("self", is_tn=True), G=Tok("G"), where=where, contract=Tok("contract"), tags=Tok("tags"),
+                 inplace=case.inplace, info=Tok("info"), compress_opts={"max_bond": Tok("max_bond")})
+        if "propagate_tags" in self.NAMES:
+            d["propagate_tags"] = Tok("propagate_tags")
+        return d
+
+    def attr(self, cx, base, attr, node):
+        if isinstance(base, Tok) and attr == "site_ind" and getattr(base, "is_tn", False):
+            return ("bound", base, "site")
+        return super().attr(cx, base, attr, node)
+
+    def call(self, cx, name, args, kwargs, node):
+        if name in ("super().gate", "super().gate_inds"):
+            return self.record(cx, name[8:], cx.env["self"], args, kwargs, Tok("ret"))
+        if name == "map" and isinstance(args[0], tuple) and args[0][0] == "bound" and isinstance(args[1], tuple):
+            return tuple(Lbl(args[0][2], s) for s in args[1])
+        return super().call(cx, name, args, kwargs, node)
+
+    def leaf(self, cx, name, recv, args, kwargs, node):
+        if recv is not None and name == "has_site":
+            return bool(getattr(args[0], "single", False))
+        return NotImplemented
+
+    def ensures_raise(self, a, exc, cx, case):
+        return {f"no-raise-{exc}": False}
+
+    def sites(self, a, case):
+        return (a.where,) if case.wk == "single" else tuple(a.where)
+
+
+@register
+class Gate2D(_LatticeGate):
+    """TensorNetwork2DVector.gate: a single coordinate becomes a 1-tuple, a sequence of coordinates a tuple IN THE GIVEN
+    ORDER; the generic arbitrary-geometry gate receives G, the sites and every option unchanged, once"""
+    target = "quimb/tensor/tn2d/core.py::TensorNetwork2DVector.gate"
+    NAMES = ("propagate_tags",)
+
+    def ensures(self, a, r, cx, case):
+        cs = [e for e in cx.events if e[0] == "call"]
+        d = {"generic-gate-exactly-once": len(cs) == 1 and cs[0][1] == "gate"}
+        if not d["generic-gate-exactly-once"]:
+            return d
+        c = cs[0][2]
+        kw = dict(c.kw)
+        d["on-the-receiver-result-returned"] = c.recv is a.self and r is c.ret and not c.args
+        d["gate-passed-on"] = kw.pop("G", None) is a.G
+        w = kw.pop("where", None)
+        d["sites-as-a-tuple-in-the-given-order"] = isinstance(w, tuple) and same(w, self.sites(a, case))
+        for k in ("contract", "tags", "propagate_tags", "info"):
+            d[f"{k}-passed-on"] = kw.pop(k, None) is a[k]
+        d["inplace-passed-on"] = kw.pop("inplace", None) is case.inplace
+        d["compress-options-passed-on"] = kw.pop("max_bond", None) is a.compress_opts["max_bond"]
+        d["no-other-option-invented"] = not kw
+        return d
+
+
+@register
+class Gate3D(_LatticeGate):
+    """TensorNetwork3DVector.gate: the site labels of the coordinates IN THE GIVEN ORDER (single coordinate: one label) go
+    to gate_inds with G and every option unchanged, once"""
+    target = "quimb/tensor/tn3d/core.py::TensorNetwork3DVector.gate"
+
+    def ensures(self, a, r, cx, case):
+        cs = [e for e in cx.events if e[0] == "call"]
+        d = {"gate_inds-exactly-once": len(cs) == 1 and cs[0][1] == "gate_inds"}
+        if not d["gate_inds-exactly-once"]:
+            return d
+        c = cs[0][2]
+        kw = dict(c.kw)
+        d["on-the-receiver-result-returned"] = c.recv is a.self and r is c.ret
+        d["gate-passed-on"] = len(c.args) == 2 and c.args[0] is a.G
+        d["site-labels-in-the-given-order"] = len(c.args) == 2 and isinstance(c.args[1], tuple) and \
+            same(c.args[1], tuple(Lbl("site", s) for s in self.sites(a, case)))
+        for k in ("contract", "tags", "info"):
+            d[f"{k}-passed-on"] = kw.pop(k, None) is a[k]
+        d["inplace-passed-on"] = kw.pop("inplace", None) is case.inplace
+        d["compress-options-passed-on"] = kw.pop("max_bond", None) is a.compress_opts["max_bond"]
+        d["no-other-option-invented"] = not kw
+        return d
+
+
+# ------------------------------------------------------------------------------------------------------------
+# Tensor.gate: which axis of G is summed with which axis of the tensor, and where the free axis of G ends up
+# ------------------------------------------------------------------------------------------------------------
+@register
+class TensorGate(Rec):
+    """Tensor.gate (ndim 1..4, every axis): x <- G x sums the COLUMN axis (1) of G with the axis of the label, x <- G^T x
+    the ROW axis (0); with preserve_inds the free axis of G ends up AT THE POSITION OF THE LABEL and every other axis stays
+    where it was (labels untouched); without, the label moves to the front and the other labels keep their order; the
+    deprecated spelling `transposed` overrides `transpose`; receiver untouched unless inplace"""
+
+    target = f"{TC}::Tensor.gate"
+    floor = 200
+
+    def cases(self):
+        out = []
+        for nd in (1, 2, 3, 4):
+            for ax in range(nd):
+                for pres in (True, False):
+                    for tr, trd in ((False, None), (True, None), (False, True), (True, False)):
+                        for ip in (False, True):
+                            if nd == 4 and ip:
+                                continue
+                            out.append(NS(name=f"ndim={nd},axis={ax},preserve_inds={pres},transpose={tr},transposed={trd},"
+                                               f"inplace={ip}", nd=nd, ax=ax, pres=pres, tr=tr, trd=trd, inplace=ip))
+        return out
+
+    def inputs(self, cx, case):
+        inds = ("a", "b", "c", "d")[:case.nd]
+        t = Tok("t", is_t=True, inds=inds, ndim=case.nd, data=Tok("x"))
+        return dict(self=t, G=Tok("G"), ind=inds[case.ax], preserve_inds=case.pres, transpose=case.tr, inplace=case.inplace,
+                    transposed=case.trd)
+
+    def attr(self, cx, base, attr, node):
+        if base is None and attr == "FutureWarning":
+            return Tok("FutureWarning")
+        if isinstance(base, Tok) and getattr(base, "is_t", False) and attr in ("inds", "ndim", "data"):
+            return getattr(base, attr)
+        return super().attr(cx, base, attr, node)
+
+    def call(self, cx, name, args, kwargs, node):
+        if name == "__tuple__":
+            out = []
+            for kind, v in args[0]:
+                if kind == "item":
+                    out.append(v)
+                elif isinstance(v, (range, list, tuple)):
+                    out.extend(v)
+                else:
+                    return NotImplemented
+            return tuple(out)
+        if name == "warnings.warn":
+            return None
+        if name == "do" and args and args[0] == "tensordot":
+            _, A, B, axes = args
+            ga, xa = axes
+            if not (isinstance(ga, tuple) and isinstance(xa, tuple) and len(ga) == 1 and len(xa) == 1):
+                raise Unsupported("tensordot over several axes")
+            # numpy: the free axes of A (in order) followed by the free axes of B (in order); A = G is a matrix
+            res = Tok("td", A=A, B=B, summed=(ga[0], xa[0]),
+                      axes=[("G", k) for k in (0, 1) if k != ga[0]] + [("x", k) for k in range(cx.env["t"].ndim) if k != xa[0]])
+            return res
+        if name == "do" and args and args[0] == "transpose":
+            _, A, perm = args
+            perm = tuple(perm)
+            if sorted(perm) != list(range(len(A.axes))):
+                cx.oblige(f"call-pre@{node.lineno}:transpose:perm-is-a-permutation", "call-pre", False, node.lineno)
+                raise PyRaise("ValueError", node.lineno)
+            return Tok("tr", A=A.A, B=A.B, summed=A.summed, axes=[A.axes[p] for p in perm])
+        return super().call(cx, name, args, kwargs, node)
+
+    def leaf(self, cx, name, recv, args, kwargs, node):
+        if recv is not None and getattr(recv, "is_t", False):
+            if name == "copy":
+                return Tok("copy", is_t=True, inds=recv.inds, ndim=recv.ndim, data=recv.data, copy_of=recv)
+            if name == "modify":
+                cx.events.append(("modify", recv, dict(kwargs), list(args)))
+                return None
+        return NotImplemented
+
+    def ensures_raise(self, a, exc, cx, case):
+        return {f"no-raise-{exc}": False}
+
+    def ensures(self, a, r, cx, case):
+        mods = [e for e in cx.events if e[0] == "modify"]
+        d = {"tensor-modified-exactly-once": len(mods) == 1 and not mods[0][3]}
+        if not d["tensor-modified-exactly-once"]:
+            return d
+        _, t, kw, _ = mods[0]
+        d["works-on-receiver-iff-inplace"] = (t is a.self) if case.inplace else (getattr(t, "copy_of", None) is a.self)
+        d["returns-the-working-tensor"] = r is t
+        nd_ = kw.get("data")
+        d["new-data-is-G-contracted-with-the-tensor's-data"] = hasattr(nd_, "summed") and nd_.A is a.G and nd_.B is a.self.data
+        if not hasattr(nd_, "summed"):
+            return d
+        eff_t = case.tr if case.trd is None else case.trd
+        d["G-summed-over-its-COLUMN-axis--ROW-axis-when-transposed"] = nd_.summed[0] == (0 if eff_t else 1)
+        d["tensor-summed-over-the-axis-of-the-label"] = nd_.summed[1] == case.ax
+        free = ("G", 1 if eff_t else 0)
+        inds = kw.get("inds", a.self.inds)
+        d["labels-are-a-tuple-of-ndim"] = isinstance(inds, tuple) and len(inds) == case.nd and len(nd_.axes) == case.nd
+        if not d["labels-are-a-tuple-of-ndim"]:
+            return d
+        if case.pres:
+            d["labels-untouched"] = "inds" not in kw and set(kw) == {"data"}
+        else:
+            d["label-first-others-in-order"] = same(inds, (a.ind,) + tuple(x for x in a.self.inds if x != a.ind)) and \
+                set(kw) == {"data", "inds"}
+        for k, lab in enumerate(inds):
+            want = free if lab == a.ind else ("x", a.self.inds.index(lab))
+            d[f"axis{k}:label-{lab}-on-" + ("the-free-axis-of-G" if lab == a.ind else "its-old-tensor-axis")] = nd_.axes[k] == want
+        return d
+
+
+# ------------------------------------------------------------------------------------------------------------
+# the sub-operator route: TensorNetworkGenVector.gate_with_op_lazy and MatrixProductState.gate_with_submpo
+# ------------------------------------------------------------------------------------------------------------
+@register
+class GateWithOpLazy(Rec):
+    """TensorNetworkGenVector.gate_with_op_lazy: A x joins the LOWER labels of A to the state, the transposed application
+    the UPPER ones (C09 contract of tensor_network_apply_op_vec: which_A names the side of A that is contracted with x);
+    nothing is contracted; inplace / inplace_op / further options unchanged"""
+    target = f"{TAG}::TensorNetworkGenVector.gate_with_op_lazy"
+    floor = 20
+
+    def cases(self):
+        return [NS(name=f"transpose={t},inplace={ip},inplace_op={io}", transpose=t, inplace=ip, inplace_op=io)
+                for t in (False, True) for ip in (False, True) for io in (False, True)]
+
+    def inputs(self, cx, case):
+        return dict(self=Tok("self"), A=Tok("A"), transpose=case.transpose, inplace=case.inplace, inplace_op=case.inplace_op,
+                    kwargs={"fuse_multibonds": Tok("fuse_multibonds")})
+
+    def leaf(self, cx, name, recv, args, kwargs, node):
+        if recv is None and name == "tensor_network_apply_op_vec":
+            return self.record(cx, name, None, args, kwargs, Tok("ret"))
+        return NotImplemented
+
+    def ensures_raise(self, a, exc, cx, case):
+        return {f"no-raise-{exc}": False}
+
+    def ensures(self, a, r, cx, case):
+        cs = [e for e in cx.events if e[0] == "call"]
+        d = {"apply_op_vec-exactly-once": len(cs) == 1}
+        if len(cs) != 1:
+            return d
+        c = cs[0][2]
+        kw = dict(c.kw)
+        d["result-returned"] = r is c.ret and not c.args
+        d["operator-and-state"] = kw.pop("A", None) is a.A and kw.pop("x", None) is a.self
+        d["lower-side-of-A-meets-the-state--upper-when-transposed"] = same(kw.pop("which_A", None), "upper" if case.transpose else "lower")
+        d["lazy:nothing-contracted"] = kw.pop("contract", None) is False
+        d["inplace-passed-on"] = kw.pop("inplace", None) is case.inplace
+        d["inplace_op-passed-on"] = kw.pop("inplace_A", None) is case.inplace_op
+        d["other-options-passed-on"] = kw.pop("fuse_multibonds", None) is a.kwargs["fuse_multibonds"]
+        d["no-other-option-invented"] = not kw
+        return d
+
+
+@register
+class MPSGateWithSubMPO(Rec):
+    """MatrixProductState.gate_with_submpo (sites symbolic, any order): unless lazy the state is first made canonical around
+    [min(where), max(where)]; the operator is attached once with the caller's transpose flag; lazy returns right there;
+    otherwise exactly the site tags min..max are split off, compressed with the caller's method and options (no array
+    permutation, in place), cur_orthog = (min, min) -- (max, max) with sweep_reverse -- and the region is joined back"""
+    target = f"{T1D}::MatrixProductState.gate_with_submpo"
+    floor = 40
+
+    def cases(self):
+        out = []
+        for wk in ("none", "2", "3"):
+            for method in ("lazy", "direct"):
+                for ip in (False, True):
+                    for sr in ("absent", False, True):
+                        if wk == "3" and (ip or sr is False):
+                            continue
+                        out.append(NS(name=f"where={wk},method={method},inplace={ip},sweep_reverse={sr}", wk=wk, method=method,
+                                      inplace=ip, sr=sr))
+        return out
+
+    def inputs(self, cx, case):
+        n = 3 if case.wk == "3" else 2
+        sites = tuple(cx.Int(f"s{k}") for k in range(n))
+        opts = {"max_bond": Tok("max_bond")}
+        if case.sr != "absent":
+            opts["sweep_reverse"] = case.sr
+        return dict(self=Tok("self", is_mps=True), submpo=Tok("submpo", sites=sites), where=None if case.wk == "none" else sites,
+                    method=case.method, transpose=Tok("transpose"), info={}, inplace=case.inplace, inplace_mpo=Tok("inplace_mpo"),
+                    compress_opts=opts)
+
+    def call(self, cx, name, args, kwargs, node):
+        if name == "__genexp__":
+            import ast
+            comp = args[0]
+            g = comp.generators[0]
+            if isinstance(comp, ast.ListComp) and isinstance(g.iter, ast.Call) and ast.unparse(g.iter.func) == "range" and \
+                    ast.unparse(comp.elt) == f"psi.site_tag({ast.unparse(g.target)})" and not g.ifs and len(g.iter.args) == 2:
+                return Tok("site-tags", lo=cx.ev(g.iter.args[0]), hi=cx.ev(g.iter.args[1]), net=cx.env["psi"])
+            return NotImplemented
+        if name == "__binop__" and args[0] == "BitOr" and isinstance(args[1], Tok):
+            cx.events.append(("ior", args[1], args[2]))
+            return args[1]
+        return super().call(cx, name, args, kwargs, node)
+
+    def leaf(self, cx, name, recv, args, kwargs, node):
+        if recv is None and name == "tensor_network_1d_compress":
+            return self.record(cx, "compress", None, args, kwargs, None)
+        if recv is None:
+            return NotImplemented
+        if name == "copy" and getattr(recv, "is_mps", False):
+            return Tok("copy", is_mps=True, copy_of=recv)
+        if name == "gen_sites_present":
+            return recv.sites
+        if name in ("canonicalize_", "gate_with_op_lazy_"):
+            return self.record(cx, name, recv, args, kwargs, None)
+        if name == "partition":
+            rest, sub = Tok("rest"), Tok("subpsi")
+            self.record(cx, "partition", recv, args, kwargs, sub)
+            return (rest, sub)
+        return NotImplemented
+
+    def ensures_raise(self, a, exc, cx, case):
+        return {f"no-raise-{exc}": False}
+
+    def ensures(self, a, r, cx, case):
+        from vf.pyvc import Min, Max
+        sites = a.submpo.sites if a.where is None else a.where
+        lo, hi = sites[0], sites[0]
+        for s in sites[1:]:
+            lo, hi = Min(lo, s), Max(hi, s)
+        ev = [e for e in cx.events if e[0] in ("call", "ior")]
+        names = [e[1] if e[0] == "call" else "ior" for e in ev]
+        want = ["gate_with_op_lazy_"] if case.method == "lazy" else \
+            ["canonicalize_", "gate_with_op_lazy_", "partition", "compress", "ior"]
+        d = {"steps-in-order": names == want}
+        if names != want:
+            return d
+        by = {n: e for n, e in zip(names, ev)}
+        g = by["gate_with_op_lazy_"][2]
+        psi = g.recv
+        d["works-on-receiver-iff-inplace"] = (psi is a.self) if case.inplace else (getattr(psi, "copy_of", None) is a.self)
+        d["returns-the-working-state"] = r is psi
+        d["operator-attached-with-the-caller's-transpose-flag"] = len(g.args) == 1 and g.args[0] is a.submpo and \
+            g.kw.get("transpose") is a.transpose and g.kw.get("inplace_op") is a.inplace_mpo and set(g.kw) == {"transpose", "inplace_op"}
+        if case.method == "lazy":
+            d["lazy:cur_orthog-not-claimed"] = "cur_orthog" not in a.info
+            return d
+        c = by["canonicalize_"][2]
+        d["canonical-around-[min,max]-of-the-sites"] = c.recv is psi and len(c.args) == 1 and isinstance(c.args[0], tuple) and \
+            len(c.args[0]) == 2 and And(c.args[0][0] == lo, c.args[0][1] == hi)
+        d["canonicalize-info"] = c.kw.get("info") is a.info and set(c.kw) == {"info"}
+        p = by["partition"][2]
+        tg = p.args[0] if p.args else None
+        d["region-split-off-is-site-tags-min..max"] = p.recv is psi and len(p.args) == 1 and hasattr(tg, "lo") and tg.net is psi and \
+            And(tg.lo == lo, tg.hi == hi + 1)
+        d["partition-any-in-place"] = same(p.kw.get("which"), "any") and p.kw.get("inplace") is True and set(p.kw) == {"which", "inplace"}
+        k = by["compress"][2]
+        kw = dict(k.kw)
+        d["compresses-the-region"] = len(k.args) == 1 and k.args[0] is p.ret
+        d["compress-site-tags-of-the-region"] = kw.pop("site_tags", None) is tg
+        d["method-passed-on"] = same(kw.pop("method", None), case.method)
+        d["no-permutation-in-place"] = kw.pop("permute_arrays", None) is False and kw.pop("inplace", None) is True
+        d["compress-options-passed-on"] = kw.pop("max_bond", None) is a.compress_opts["max_bond"] and \
+            (case.sr == "absent" or kw.pop("sweep_reverse", None) is case.sr)
+        d["no-other-option-invented"] = not kw
+        co = a.info.get("cur_orthog")
+        end = hi if case.sr is True else lo
+        d["cur_orthog-at-the-end-the-sweep-stops"] = isinstance(co, tuple) and len(co) == 2 and And(co[0] == end, co[1] == end)
+        d["region-joined-back"] = by["ior"][1] is psi and by["ior"][2] is p.ret
         return d
